@@ -133,4 +133,17 @@ CONTRACT_UNITS = [
 ]
 UNITS = CONTRACT_UNITS + UNITS
 
-META = dict(level='proof', level_text='TODO', level_note='TODO', technique='TODO', trusted_base=[], assumptions=[], explanation='')
+META = dict(
+    level='proof',
+    level_text='PROVED (contracts, unbounded): every record-keeping function of generator<int> and generator<int,int> - promise_type::yield_value (3 overloads), yield_suspend::await_suspend / await_resume, yield_null::await_resume, final_suspend, return_void, unhandled_exception, set_arg, next_async, next_sync, the functor of next_future, next_future, unblock_sync, unblock_future, resume_fn_sync, resume_fn_future, done, value, exception; next_awt::operator bool / operator! / await_ready / await_suspend / await_resume / subscribe; generator::next / value / operator() / done / operator bool / begin / end / deleter; every generator_iterator member - satisfies a contract taken from the property over the hand-over record {_caller, _internal, _arg, _ret, _exp, _done, _block, _awaiting}: the request is cleared before exactly the asker is resumed exactly once and whatever the asker made ready is continued or scheduled, none lost (yield_suspend::await_suspend); value() returns the object of the last co_yield or rethrows the very exception stored; unblock_future resolves the pending call exactly once with drop / that exception / that value (exception before value); the argument pointer the body reads is the one installed by the resuming call; next_sync completes the record before the body runs, resumes it once, waits with acquire order and returns only after the body handed back; operator bool steps at most once per next() and never on a finished generator; it++ hands out the value read before the step; nothing allocates (C20). BOUNDED (drives of the really lowered coroutines, never counted as proof): for scripted bodies with k <= 3 symbolic values, optional throw at any position, optional argument, optional co_await of a ready or a pending future, and the consumer styles next()/value(), range-for, explicit iterators, call-to-future, every sequence of 4 mixed steps, co_await next() and co_await of the call future from a consumer coroutine: observed sequence == yielded sequence, exactly one end indication, exception exactly at its position, argument echo, locals destroyed exactly once when the generator is dropped before the first activation / parked at a yield / finished, allocations == frames and all freed.',
+    level_note='The quantifier "for every body script and every sequence of access styles" is covered by the contracts only function by function (each contract is the inductive step of the record invariant; no machine-checked history lemma composes them) and by the drives only up to the stated bounds. Trusted: abstract callees (coroutine resumption/destruction, resumption of the asking awaiter, promise resolution, suspend_now, atomic<bool>::wait/notify_all, neighbouring members in forwarder units) as recording stubs with arbitrary admissible results; std::atomic<T*> members read sequentially at member-function level (the record is owned by one thread at a time; release/acquire of the hand-over itself is C03); in drives additionally the FIFO ring for the ready queue, typed frame allocation, compare_exchange_weak without spurious failure. Not covered: bodies completed by ANOTHER thread while the consumer blocks in next_sync (only through the wait primitive of the next_sync contract: a blocking wait ends when the flag is raised), memory orders of _block beyond "wait uses acquire", value types other than int, generator_iterator::storage::operator* / operator-> (do not compile when instantiated: const member returning a non-const reference, so `*it++` is unusable). One obligation fails on the unchanged tree: next_async registers the asker before it checks for a finished coroutine and leaves _caller set when it throws no_more_values_exception (replay/c13_next_async_refused.cpp, specs/C13/fix_next_async.diff).',
+    technique='CBMC 6.11 code contracts (requires/ensures/assigns) enforced per function via goto-instrument --dfcc on the C translation of clang IR of generator.h / iterator.h, abstract callees as recording stubs; plus bounded symbolic execution (plain cbmc, unwinding assertions) of driver scenarios in which clang has lowered generator bodies and consumer coroutines to ramp/resume/destroy functions and ir2c devirtualises coroutine_handle::resume()',
+    trusted_base=['abstract callees recorded in ghost state (specs/C13/g_spec.h): coroutine_handle<promise_type>::resume/destroy, coroutine_handle<>::resume, awaiter::resume, suspend_point<void>::suspend_now, promise<int>::operator() (3 instantiations), promise<int>::~promise, std::atomic<bool>::wait / notify_all',
+                  'std::atomic<T*> load / exchange / compare_exchange_weak / operator= read sequentially at member-function level, no spurious CAS failure (lib/model_atomic_ptr_api.c)',
+                  'drives: std::deque<coroutine_handle<>> = bounded FIFO ring (lib/model_dq_drive.c); operator new/delete with coroutine frames allocated as typed objects (lib/model_heap_frames.c); atomic<bool>::wait = obligation "already satisfied" in a single-threaded drive (specs/C13/h_drive.c)',
+                  'exception model of lib/rt_core.c (exception_ptr = pointer to the thrown object, reference counts counted, not freed)'],
+    assumptions=['contract units: the promise lives in a coroutine frame laid out as the ABI prescribes (resume slot, destroy slot, promise at offset 16; NULL resume slot = final suspend point)',
+                 'hand-over invariant assumed by unblock_future: the record describes an end, an exception or a value (established by yield_value / final_suspend + return_void / unhandled_exception, each proved)',
+                 'next_sync / next_future / next_async preconditions: the generator is idle (_caller == NULL, no promise parked) - the documented "Generator is busy" contract of the library',
+                 'drives: bounded(k <= 3 values, <= 4 consumer steps past them, one generator, one consumer coroutine, one awaited future); single thread'],
+    explanation='see level_text')
